@@ -1,6 +1,7 @@
-(* Props/C07.v *)
+(* Props/C07.v — the store can reopen what it wrote *)
 From Coq Require Import List NArith Arith Bool.
 From SKV Require Import Base.Lex Txn.WriteSet Spec.Store.
+From SKV Require Import Crash.Proto Crash.ProtoSpec Crash.ProtoRefute Crash.Proto_proofs.
 Import ListNotations.
 
 (* recovery as a specification: the state after the first n commits; states of longer prefixes
@@ -13,3 +14,31 @@ Proof.
   replace (S (length h)) with (length (h ++ [b])) by (rewrite app_length; cbn [length]; apply Nat.add_1_r).
   rewrite !firstn_all. rewrite fold_left_app. reflexivity.
 Qed.
+
+(* protocol level: every crash image of an accepted trace opens; the recovery's own file operations
+   are accepted; a process crash after any number of them recovers the same batches; everything
+   recovered is numbered below the next commit *)
+Theorem C07_reopen_ok : reopen_ok_stmt.
+Proof. exact reopen_ok. Qed.
+
+Theorem C07_generations_compose : generations_compose_stmt.
+Proof. exact generations_compose. Qed.
+
+(* recovery's flush of a piece of a replayed segment is accepted after a power loss (everything that
+   is left is on disk); after a process crash it is not: C03_recovery_piece_unsynced_refuted *)
+Theorem C07_power_loss_on_disk : power_loss_on_disk_stmt.
+Proof. exact power_loss_on_disk. Qed.
+
+Theorem C07_piece_flush_accepted : piece_flush_accepted_stmt.
+Proof. exact piece_flush_accepted. Qed.
+
+(* what the obligations exclude: a table of the manifest that is not on disk / was unlinked, an
+   append after a torn tail *)
+Theorem C07_compaction_unsynced_refuted : compaction_unsynced_refuted_stmt.
+Proof. exact compaction_unsynced_refuted. Qed.
+
+Theorem C07_p4_needed : p4_needed_stmt.
+Proof. exact p4_needed. Qed.
+
+Theorem C07_p5_rejected : p5_rejected_stmt.
+Proof. exact p5_rejected. Qed.
